@@ -497,7 +497,7 @@ class C19(Check):
 
     def post(self, acc, tier):
         specs = [{'key': 'abc', 'second': 'get'}, {'key': 'abc', 'second': 'rmv'}]
-        if tier == 'thorough': specs += [{'key': 7, 'second': 'get'}, {'key': 'openml_042693_arff', 'second': 'get'}, {'key': 7, 'second': 'rmv'}]
+        if tier == 'thorough': specs += [{'key': 'k7', 'second': 'get'}, {'key': 'openml_042693_arff', 'second': 'get'}, {'key': 'openml 042693.csv', 'second': 'rmv'}]      # DiskCacher keys are strings
         n = self.real_runs(specs, acc)
         acc.traces += n
         return {'real_os_conformance_runs': n}
